@@ -272,3 +272,36 @@ Lemma legacy_more :
   legacy_lex [97; 34; 98] = Unterminated /\
   (exists a, legacy_lex [97; 92; 92; 98] = Words a true /\ nth 12 a [] = [97; 92; 98]).
 Proof. repeat split; try (vm_compute; reflexivity). eexists. split; vm_compute; reflexivity. Qed.
+
+(* ---- the statements of Props/C19.v ---- *)
+Lemma argv_credentials : forall c user pw t lun netfn raw,
+  (c_type c = Lan \/ c_type c = Lanplus) -> c_auth c = AuthPassword user pw ->
+  nonul user = true -> nonul pw = true ->
+  plain_word (c_host c) = true -> (c_priv c = 2 \/ c_priv c = 3 \/ c_priv c = 4) ->
+  wf_target t = true -> bytes_ok raw = true ->
+  exists cmd, cmd_of c t lun netfn raw = Ok cmd /\
+    sh_lex cmd = Words ([B "ipmitool"; B "-I"; iftype_name (c_type c); B "-H"; c_host c;
+                         B "-p"; dec (c_port c); B "-L"; level_name (c_priv c)] ++
+                        cipher_args (c_cipher c) ++ [B "-U"; user; B "-P"; pw] ++
+                        target_args t ++ [B "-l"; dec lun; B "raw"] ++ map ox2 (netfn :: raw)) true.
+Proof.
+  intros c user pw t lun netfn raw Ht Ha Hu Hp Hh Hl Wt Hr.
+  assert (W : wf_config c = true).
+  { unfold wf_config. destruct Ht as [E|E]; rewrite E, Ha, Hh, Hu, Hp;
+      destruct Hl as [E2|[E2|E2]]; rewrite E2; reflexivity. }
+  destruct (cmd_argv c t lun netfn raw W Wt Hr) as (cmd & E1 & E2). exists cmd. split; [assumption|].
+  rewrite E2. unfold spec_argv, spec_err2out, raw_args, cred_args. rewrite Ha.
+  destruct Ht as [E|E]; rewrite E; cbn [app]; repeat (rewrite <- app_assoc; cbn [app]); reflexivity.
+Qed.
+
+Lemma target_args_shape : forall a ad s0 s1 s2 c0 c1 k0 k1, a <> 0 ->
+  target_args (Some (mkTarget (Some a) None)) = [B "-t"; ox2 a] /\
+  target_args (Some (mkTarget ad (Some [mkRoute s0 c0]))) = [] /\
+  target_args (Some (mkTarget ad (Some [mkRoute s0 (Some k0); mkRoute s1 c1]))) =
+    [B "-t"; ox2 s1; B "-b"; dec k0] /\
+  target_args (Some (mkTarget ad (Some [mkRoute s0 (Some k0); mkRoute s1 (Some k1); mkRoute s2 c1]))) =
+    [B "-T"; ox2 s1; B "-B"; dec k0; B "-t"; ox2 s2; B "-b"; dec k1].
+Proof.
+  intros a ad s0 s1 s2 c0 c1 k0 k1 Ha. repeat split; try reflexivity.
+  unfold target_args. cbn [t_routing t_addr]. apply N.eqb_neq in Ha. now rewrite Ha.
+Qed.
